@@ -19,6 +19,13 @@
   * The code is modelled AS IT IS, including the lifecycle gaps of overtaken
     speculative jobs (DESIGN 7.1 F2, F4, F5).  Ghost fields (never read by a
     guard): `gnext`, `Job.corrupt` …, `taint`.
+  * Heap objects are values: a `struct unord_blk` is carried by the retrieve
+    job that owns it (`Job.ub`, = `rb->unord_link`) while that job exists and
+    sits in `orphans` afterwards (job finished: complete entry waiting for the
+    parser; job dropped by `advance()`/FINISH or aborted: an entry nobody will
+    free).  `unord_q` = all entries with `inq`.  The parser's writes through
+    `unord_q` update the owning job in place.  Queues are multisets (lists up
+    to order); a dequeue takes any element with a minimal key.
 -/
 import LbzVerif.Gen.SchedD
 import LbzVerif.Gen.Process
@@ -107,20 +114,23 @@ def seqRun (c : Cfg) : List (Nat × Nat) × Bool := seqFrom c (c.T + 1) 0
 
 /-! ## State -/
 
-structure UB where            -- struct unord_blk (a heap object)
-  id : Nat
-  base : Nat
+structure UF where            -- mutable fields of a struct unord_blk
   endp : Nat
   complete : Bool
   legit : Bool
   inq : Bool                  -- still in unord_q
+  deriving DecidableEq, Repr, Hashable
+
+structure UB where            -- an unord_blk whose retrieve job no longer exists
+  base : Nat
+  f : UF
   corrupt : Bool              -- ghost
   deriving DecidableEq, Repr, Hashable
 
 structure Job where           -- struct retr_blk
   curr : Nat
   base : Nat
-  link : Option Nat           -- unord_link (id)
+  ub : Option UF              -- unord_link
   corrupt : Bool              -- ghost: was attached behind head_offs
   deriving DecidableEq, Repr, Hashable
 
@@ -170,8 +180,7 @@ structure State where
   emitQ : List EJob
   reordQ : List OB
   orderQ : List (Nat × Nat)
-  ublks : List UB             -- every live unord_blk (in unord_q iff `inq`)
-  nextId : Nat
+  orphans : List UB           -- unord_blk objects without a job
   ptok : Bool
   pdone : Bool
   ppos : Nat                  -- parser_bs
@@ -190,7 +199,7 @@ structure State where
 def init (c : Cfg) : State :=
   { rph := .idle, nread := 0, rd := 0, head := 0, eof := false, rclose := false,
     inSlots := c.totalIn, scanQ := [], retrQ := [], emitQ := [], reordQ := [],
-    orderQ := [], ublks := [], nextId := 0, ptok := true, pdone := false,
+    orderQ := [], orphans := [], ptok := true, pdone := false,
     ppos := 0, porig := 0, gnext := 0, pphase := none, wu := c.n,
     outSlots := c.totalOut, outq := 0, busy := [], written := [], failed := false,
     taint := false }
@@ -217,8 +226,6 @@ def minNat? : List Nat → Option Nat
     match minNat? xs with
     | none => some x
     | some m => if m < x then some m else some x
-
-def inqBases (s : State) : List Nat := (s.ublks.filter (·.inq)).map (·.base)
 
 def view (c : Cfg) (s : State) : DView :=
   let tl := tailOffs c s
@@ -283,6 +290,12 @@ def newHead (c : Cfg) (s : State) (p : Nat) : Nat :=
 def releaseCount (s : State) (h h' : Nat) : Nat :=
   ((List.range' h (h' - h)).filter (fun k => !attachedTo s k)).length
 
+/-- the unord_blk a dropped / exiting job leaves behind -/
+def Job.orphan (j : Job) : List UB :=
+  match j.ub with
+  | none => []
+  | some f => [{ base := j.base, f := f, corrupt := j.corrupt }]
+
 /-- `advance(bs)`. -/
 def advance (c : Cfg) (s : State) (p : Nat) : State :=
   let h' := newHead c s p
@@ -291,19 +304,46 @@ def advance (c : Cfg) (s : State) (p : Nat) : State :=
     ppos := p, head := h',
     inSlots := s.inSlots + releaseCount s s.head h',
     wu := s.wu + (s.retrQ.filter (fun j => j.curr < ho)).length,
+    orphans := (s.retrQ.filter (fun j => j.curr < ho)).flatMap Job.orphan ++ s.orphans,
     retrQ := s.retrQ.filter (fun j => !(j.curr < ho)),
     scanQ := s.scanQ.filter (fun x => !(x < ho)) }
 
-def ubFind (s : State) (id : Nat) : Option UB := s.ublks.find? (·.id == id)
-def ubLink (s : State) (l : Option Nat) : Option UB :=
-  match l with | none => none | some id => ubFind s id
-def ubSet (us : List UB) (u : UB) : List UB := us.map (fun x => if x.id == u.id then u else x)
-def ubDel (us : List UB) (id : Nat) : List UB := us.filter (fun x => !(x.id == id))
+/-! ### the parser's writes through unord_q -/
 
-/-- the parser pops an entry of unord_q that it did not match -/
-def ubPopStale (us : List UB) (p : UB → Bool) : List UB :=
-  (us.filter (fun u => !(p u && u.complete))).map
-    (fun u => if p u then { u with complete := true, legit := false, inq := false } else u)
+def UF.flagBad (f : UF) : UF := { f with complete := true, legit := false, inq := false }
+def UF.flagGood (f : UF) : UF := { f with complete := true, legit := true, inq := false }
+
+/-- "mis-recognised bit pattern": an incomplete entry with `p base` is popped
+    and flagged -/
+def flagJob (p : Nat → Bool) (j : Job) : Job :=
+  { j with ub := j.ub.map (fun f => if f.inq && p j.base then f.flagBad else f) }
+
+def flagPhase (p : Nat → Bool) : Phase → Phase
+  | .retr j k => .retr (flagJob p j) k
+  | ph => ph
+
+/-- orphans: complete entries are freed, incomplete ones flagged -/
+def popOrphans (p : Nat → Bool) (os : List UB) : List UB :=
+  (os.filter (fun u => !(u.f.inq && p u.base && u.f.complete))).map
+    (fun u => if u.f.inq && p u.base then { u with f := u.f.flagBad } else u)
+
+def replaceFirst {α} (p : α → Bool) (g : α → α) : List α → List α
+  | [] => []
+  | x :: xs => if p x then g x :: xs else x :: replaceFirst p g xs
+
+def Job.inqAt (b : Nat) (j : Job) : Bool :=
+  match j.ub with | some f => f.inq && j.base == b | none => false
+def Phase.inqAt (b : Nat) : Phase → Bool
+  | .retr j _ => j.inqAt b
+  | _ => false
+def Job.good (j : Job) : Job := { j with ub := j.ub.map UF.flagGood }
+def Phase.good : Phase → Phase
+  | .retr j k => .retr j.good k
+  | ph => ph
+def Job.endp (j : Job) : Nat := match j.ub with | some f => f.endp | none => j.curr
+def Phase.endp : Phase → Nat
+  | .retr j _ => j.endp
+  | _ => 0
 
 /-! ## Transitions -/
 
@@ -380,49 +420,86 @@ def stepParseStart (c : Cfg) (s : State) : Option State :=
     some { s with ptok := false, wu := s.wu - 1, pphase := some k }
   else none
 
+/-- `do_parse`, rv == OK, first half: `advance`, `push(order_q)`, pop the
+    entries of unord_q that lie before the new header -/
+def parsePush (c : Cfg) (s1 : State) (b : Nat) : State :=
+  let lt : Nat → Bool := fun x => decide (x < b)
+  let s2 := advance c s1 b
+  { s2 with orderQ := s2.orderQ ++ [(b, 0)], gnext := (rres c b).e,
+            retrQ := s2.retrQ.map (flagJob lt),
+            busy := s2.busy.map (flagPhase lt),
+            orphans := popOrphans lt s2.orphans }
+
+/-- `do_parse`, rv == OK, second half: take over a scanner-found block at
+    exactly this position, or create the master retrieve job -/
+def parseMatch (c : Cfg) (s3 : State) (b : Nat) : State :=
+  match s3.retrQ.find? (Job.inqAt b) with
+  | some j =>
+    let a := advance c { s3 with retrQ := replaceFirst (Job.inqAt b) Job.good s3.retrQ } j.endp
+    { a with wu := a.wu + 1 }
+  | none =>
+    match s3.busy.find? (Phase.inqAt b) with
+    | some ph =>
+      let a := advance c { s3 with busy := replaceFirst (Phase.inqAt b) Phase.good s3.busy } ph.endp
+      { a with wu := a.wu + 1 }
+    | none =>
+      match s3.orphans.find? (fun u => u.f.inq && u.base == b) with
+      | some u =>
+        let a := advance c s3 u.f.endp
+        if u.f.complete then
+          { a with orphans := a.orphans.erase u, ptok := true, porig := u.f.endp,
+                   wu := a.wu + 1, taint := a.taint || u.corrupt }
+        else
+          { a with orphans := replaceFirst (fun x => x == u) (fun x => { x with f := x.f.flagGood }) a.orphans,
+                   wu := a.wu + 1 }
+      | none =>
+        { s3 with retrQ := { curr := b, base := b, ub := none, corrupt := false } :: s3.retrQ }
+
+def parseOk (c : Cfg) (s1 : State) (b : Nat) : State := parseMatch c (parsePush c s1 b) b
+
+/-- `do_parse`, rv == FINISH (and no ERR_EOF) -/
+def parseFinish (s1 : State) (u : Nat) : State :=
+  let all : Nat → Bool := fun _ => true
+  { s1 with
+    rclose := true, ptok := true, pdone := true, ppos := u,
+    head := s1.rd,
+    inSlots := s1.inSlots + releaseCount s1 s1.head s1.rd,
+    wu := s1.wu + s1.retrQ.length + 1,
+    retrQ := [], scanQ := [],
+    busy := s1.busy.map (flagPhase all),
+    orphans := popOrphans all (s1.retrQ.flatMap Job.orphan ++ s1.orphans) }
+
+/-- how far `parse()` has to read before it can return its verdict -/
+def parseTarget : PRes → Nat
+  | .hdr b => b
+  | .finish u _ => u
+  | .err u => u
+
+/-- `parse()` returns MORE: the attached input block ends first -/
+def parseMoreP (c : Cfg) (k : Option Nat) (target : Nat) : Bool :=
+  match k with
+  | some kk => decide (offs c (kk + 1) < target)
+  | none => false
+
+def parseMore (c : Cfg) (s1 : State) (k : Option Nat) : State :=
+  let a := advance c s1 (offs c (k.getD 0 + 1))
+  { a with ptok := true, wu := a.wu + 1 }
+
+def parseVerdict (c : Cfg) (s1 : State) : PRes → State
+  | .err _ => { s1 with failed := true }
+  | .finish u ok =>
+    if !ok then { s1 with rclose := true, ptok := true, pdone := true, failed := true }
+    else parseFinish s1 u
+  | .hdr b => parseOk c s1 b
+
 /-- `do_parse` from the `sched_lock` inside `detach` to its end -/
 def stepParseEnd (c : Cfg) (s : State) : Option State :=
   match s.pphase with
   | none => none
   | some k =>
-    let r := pres c s.porig
-    let target := match r with | .hdr b => b | .finish u _ => u | .err u => u
     let s1 := detach { s with pphase := none } k
-    let more := match k with
-      | some kk => decide (offs c (kk + 1) < target)
-      | none => false
-    if more then
-      let kk := k.getD 0
-      some { advance c s1 (offs c (kk + 1)) with ptok := true, wu := (advance c s1 (offs c (kk + 1))).wu + 1 }
-    else
-      match r with
-      | .err _ => some { s1 with failed := true }
-      | .finish u ok =>
-        if !ok then some { s1 with rclose := true, ptok := true, pdone := true, failed := true }
-        else
-          some { s1 with
-            rclose := true, ptok := true, pdone := true, ppos := u,
-            head := s1.rd,
-            inSlots := s1.inSlots + releaseCount s1 s1.head s1.rd,
-            wu := s1.wu + s1.retrQ.length + 1,
-            retrQ := [], scanQ := [],
-            ublks := ubPopStale s1.ublks (fun u => u.inq) }
-      | .hdr b =>
-        let s2 := advance c s1 b
-        let us := ubPopStale s2.ublks (fun u => u.inq && decide (u.base < b))
-        let s3 := { s2 with orderQ := s2.orderQ ++ [(b, 0)], ublks := us,
-                            gnext := (rres c b).e }
-        match us.find? (fun u => u.inq && u.base == b) with
-        | some u =>
-          let s4 := advance c s3 u.endp
-          if u.complete then
-            some { s4 with ublks := ubDel s4.ublks u.id, ptok := true, porig := u.endp,
-                           wu := s4.wu + 1, taint := s4.taint || u.corrupt }
-          else
-            some { s4 with ublks := ubSet s4.ublks { u with complete := true, legit := true, inq := false },
-                           wu := s4.wu + 1 }
-        | none =>
-          some { s3 with retrQ := { curr := b, base := b, link := none, corrupt := false } :: s3.retrQ }
+    if parseMoreP c k (parseTarget (pres c s.porig)) then some (parseMore c s1 k)
+    else some (parseVerdict c s1 (pres c s.porig))
 
 /-- `do_retrieve` up to the `sched_unlock` inside `attach` -/
 def stepRetrStart (c : Cfg) (s : State) (j : Job) : Option State :=
@@ -437,47 +514,66 @@ def stepRetrStart (c : Cfg) (s : State) (j : Job) : Option State :=
                   busy := .retr { j with corrupt := j.corrupt || stale } k :: s.busy }
   else none
 
+/-- the job is (now) the master: created by the parser, or confirmed by it -/
+def Job.master (j : Job) : Bool := match j.ub with | none => true | some f => f.complete
+
+/-- early returns of `do_retrieve` (parsing_done / "found himself redundant"):
+    the job is freed, its unord_blk is not -/
+def retrExit (s1 : State) (j : Job) : State :=
+  { s1 with wu := s1.wu + 1, orphans := j.orphan ++ s1.orphans }
+
+/-- the master moves the parser position -/
+def retrMove (c : Cfg) (s1 : State) (j : Job) (newc : Nat) : State :=
+  if j.master then
+    let a := advance c s1 newc
+    { a with taint := a.taint || j.corrupt }
+  else s1
+
+def retrMoreJob (j : Job) (newc : Nat) : Job :=
+  { j with curr := newc,
+           ub := if j.master then j.ub else j.ub.map (fun f => { f with endp := newc }) }
+
+/-- rv == MORE: back into retr_q (speculative: `end_pos` follows) -/
+def retrMore (s2 : State) (j : Job) (newc : Nat) : State :=
+  { s2 with retrQ := retrMoreJob j newc :: s2.retrQ }
+
+/-- "We are not yet finished retrieving, but were proven not to be legitimate" -/
+def Job.redundant (j : Job) : Bool :=
+  match j.ub with | some f => f.complete && !f.legit | none => false
+
+/-- where `retrieve()` stops in this step: the end of the block or of the
+    attached input block -/
+def retrNewc (c : Cfg) (j : Job) (k : Option Nat) : Nat :=
+  match k with
+  | some kk => max j.curr (min (rres c j.base).e (offs c (kk + 1)))
+  | none => j.curr
+
+/-- retrieve finished (OK or error): hand the token back or mark complete -/
+def retrDone (c : Cfg) (s2 : State) (j : Job) (newc : Nat) : State :=
+  let r := rres c j.base
+  let ej : EJob :=
+    { base := j.base, idx := 0, left := (if r.ok then r.nb else 1),
+      ok := r.ok && r.fin, corrupt := j.corrupt }
+  if j.master then
+    { s2 with ptok := true, porig := newc, busy := .retr2 ej :: s2.busy }
+  else
+    { s2 with busy := .retr2 ej :: s2.busy,
+              orphans :=
+                (match j.ub with
+                 | some f => [{ base := j.base, f := { f with complete := true, endp := newc },
+                                corrupt := j.corrupt }]
+                 | none => []) ++ s2.orphans }
+
 /-- `do_retrieve` from the `sched_lock` in `detach` to the `sched_unlock`
     before `decode()` (or to its early returns) -/
 def stepRetrEnd (c : Cfg) (s : State) (j : Job) (k : Option Nat) : Option State :=
   if s.busy.contains (.retr j k) then
-    let r := rres c j.base
-    let newc := match k with
-      | some kk => max j.curr (min r.e (offs c (kk + 1)))
-      | none => j.curr
-    let fin := decide (r.e ≤ newc)
+    let newc := retrNewc c j k
     let s1 := detach { s with busy := s.busy.erase (.retr j k) } k
-    let u? := ubLink s1 j.link
-    if s1.pdone then some { s1 with wu := s1.wu + 1 }
-    else if (match u? with | some u => u.complete && !u.legit | none => false) then
-      some { s1 with wu := s1.wu + 1 }
-    else
-      let master := match u? with | some u => u.complete | none => true
-      let s2 :=
-        if master then
-          let a := advance c s1 newc
-          { a with taint := a.taint || j.corrupt }
-        else
-          match u? with
-          | some u => { s1 with ublks := ubSet s1.ublks { u with endp := newc } }
-          | none => s1
-      if !fin then
-        some { s2 with retrQ := { j with curr := newc } :: s2.retrQ }
-      else
-        let ej : EJob :=
-          { base := j.base, idx := 0, left := (if r.ok then r.nb else 1),
-            ok := r.ok && r.fin, corrupt := j.corrupt }
-        let s3 :=
-          if master then
-            { s2 with ptok := true, porig := newc,
-                      ublks := (match j.link with | some id => ubDel s2.ublks id | none => s2.ublks) }
-          else
-            match u? with
-            | some u =>
-              { s2 with ublks := ubSet s2.ublks
-                  { u with complete := true, endp := newc, corrupt := j.corrupt } }
-            | none => s2
-        some { s3 with busy := .retr2 ej :: s3.busy }
+    if s1.pdone then some (retrExit s1 j)
+    else if j.redundant then some (retrExit s1 j)
+    else if !decide ((rres c j.base).e ≤ newc) then some (retrMore (retrMove c s1 j newc) j newc)
+    else some (retrDone c (retrMove c s1 j newc) j newc)
   else none
 
 /-- `do_retrieve`: `sched_lock(); enqueue(emit_q, eb)` -/
@@ -520,6 +616,19 @@ def stepScanStart (c : Cfg) (s : State) (sp : Nat) : Option State :=
 def scanFind (c : Cfg) (start hi : Nat) : Option Nat :=
   minNat? (c.cand.filter (fun x => decide (start < x) && decide (x ≤ hi)))
 
+/-- "Scanner found a known pattern" / "a unique match" -/
+def scanNew (s1 : State) (x : Nat) : State :=
+  if x ≤ s1.ppos then { s1 with wu := s1.wu + 1 }
+  else
+    { s1 with
+      retrQ := { curr := x, base := x,
+                 ub := some { endp := x, complete := false, legit := false, inq := true },
+                 corrupt := false } :: s1.retrQ }
+
+/-- the scan job goes back to scan_q unless its input block is used up or released -/
+def scanRequeue (c : Cfg) (s2 : State) (x hi : Nat) : State :=
+  if x != hi && decide (headOffs c s2 ≤ x) then { s2 with scanQ := x :: s2.scanQ } else s2
+
 /-- `do_scan` from the `sched_lock` in `detach` to its end -/
 def stepScanEnd (c : Cfg) (s : State) (start k : Nat) : Option State :=
   if s.busy.contains (.scan start k) then
@@ -529,18 +638,7 @@ def stepScanEnd (c : Cfg) (s : State) (start k : Nat) : Option State :=
     | none => some { s1 with wu := s1.wu + 1 }
     | some x =>
       if s1.pdone then some { s1 with wu := s1.wu + 1 }
-      else
-        let s2 :=
-          if x ≤ s1.ppos then { s1 with wu := s1.wu + 1 }
-          else
-            { s1 with
-              ublks := { id := s1.nextId, base := x, endp := x, complete := false,
-                         legit := false, inq := true, corrupt := false } :: s1.ublks,
-              nextId := s1.nextId + 1,
-              retrQ := { curr := x, base := x, link := some s1.nextId, corrupt := false } :: s1.retrQ }
-        if x != hi && decide (headOffs c s2 ≤ x) then
-          some { s2 with scanQ := x :: s2.scanQ }
-        else some s2
+      else some (scanRequeue c (scanNew s1 x) x hi)
   else none
 
 def step (c : Cfg) (s : State) (l : Label) : Option State :=
@@ -608,27 +706,27 @@ def final (c : Cfg) (s : State) : Bool := s.failed || terminated c s
 
 /-! ## Monitored predicates (used by theorems, witnesses and the BFS driver) -/
 
-def unordSize (s : State) : Nat := (s.ublks.filter (·.inq)).length
+def Job.inq (j : Job) : Bool := match j.ub with | some f => f.inq | none => false
+def Phase.inq : Phase → Bool
+  | .retr j _ => j.inq
+  | _ => false
+
+/-- size(unord_q) -/
+def unordSize (s : State) : Nat :=
+  s.orphans.countP (·.f.inq) + s.retrQ.countP Job.inq + s.busy.countP Phase.inq
 def unordCapOf (c : Cfg) : Nat := unordCap c.n c.totalOut
 
-/-- a job (queued or running) owns unord_blk `id` -/
-def hasOwner (s : State) (id : Nat) : Bool :=
-  s.retrQ.any (fun j => j.link == some id)
-  || s.busy.any (fun ph => match ph with | .retr j _ => j.link == some id | _ => false)
-
 /-- entries of unord_q whose job `advance()` dropped: they hold no resource (F4) -/
-def staleCount (s : State) : Nat :=
-  (s.ublks.filter (fun u => u.inq && !u.complete && !hasOwner s u.id)).length
+def staleCount (s : State) : Nat := s.orphans.countP (fun u => u.f.inq && !u.f.complete)
 
 /-- F5: a retrieve job is queued behind `head_offs` -/
 def staleAttach (c : Cfg) (s : State) : Bool := s.retrQ.any (fun j => j.curr < headOffs c s)
 
 /-- F2: unord_blk objects nobody will ever free -/
-def leakedCount (s : State) : Nat :=
-  (s.ublks.filter (fun u => !u.inq && !hasOwner s u.id)).length
+def leakedCount (s : State) : Nat := s.orphans.countP (fun u => !u.f.inq)
 
 def emitBusy (s : State) : Nat :=
-  (s.busy.filter (fun ph => match ph with | .emit _ => true | _ => false)).length
+  s.busy.countP (fun ph => match ph with | .emit _ => true | _ => false)
 
 def unitsHeld (s : State) : Nat := s.retrQ.length + s.emitQ.length + busyCount s
 def slotsHeld (s : State) : Nat := s.reordQ.length + s.outq + emitBusy s
